@@ -68,7 +68,75 @@ Fixpoint series_run (geq : K -> K -> K) (veq : K -> K -> K -> K -> K -> K) (X R 
       let st' := series_step (geq X dt) (veq X dt (fst st) 0 (snd st)) R Vs in
       st' :: series_run geq veq X R Vs r st'
   end.
+
+(* ---- the matrix path of Simulator._step for an arbitrary circuit ---------------------------------
+   unknowns are indexed by Z (node voltages 0 .. num_nodes-1, then branch currents); index -1 is ground.
+   A reactive component contributes its conductance g = geq(dt_k) between its first node i1 and the
+   dummy node i3 (entries of the regenerated list stamp_A) and its history source ve = veq(dt_k, state
+   at step k-1) to the right-hand side of the branch row m of its companion source. *)
+Record rcomp := MkRcomp { rc_g : K; rc_ve : K; rc_i1 : Z; rc_i3 : Z; rc_m : Z }.
+Definition nidx (c : rcomp) (n : cnode) : Z := match n with N1 => rc_i1 c | N3 => rc_i3 c | N2 => (-1)%Z end.
+Fixpoint stamp_entry (l : list (cnode * cnode * csign)) (c : rcomp) (r q : Z) : K :=
+  match l with
+  | [] => 0
+  | (rn, cn, s) :: t =>
+      (if (Z.eqb r (nidx c rn) && Z.eqb q (nidx c cn) && Z.leb 0 r && Z.leb 0 q)%bool then sgn s (rc_g c) else 0)
+      + stamp_entry t c r q
+  end.
+Fixpoint stamped (A : Z -> Z -> K) (l : list (cnode * cnode * csign)) (cs : list rcomp) (r q : Z) : K :=
+  match cs with [] => A r q | c :: t => stamp_entry l c r q + stamped A l t r q end.
+Fixpoint zstamped (Zv : Z -> K) (cs : list rcomp) (r : Z) : K :=
+  match cs with [] => Zv r | c :: t => (if Z.eqb r (rc_m c) then rc_ve c else 0) + zstamped Zv t r end.
+Fixpoint lsum (l : list Z) (f : Z -> K) : K := match l with [] => 0 | q :: t => f q + lsum t f end.
+Definition rowdot (idx : list Z) (M : Z -> Z -> K) (x : Z -> K) (r : Z) : K := lsum idx (fun q => M r q * x q).
+
+Lemma lsum_add l f h : lsum l (fun q => f q + h q) = lsum l f + lsum l h.
+Proof. induction l as [|q t IH]; cbn; [ring | rewrite IH; ring]. Qed.
+Lemma lsum_ext l f h : (forall q, f q = h q) -> lsum l f = lsum l h.
+Proof. intros E. induction l as [|q t IH]; cbn; [reflexivity | rewrite IH, E; reflexivity]. Qed.
+Lemma lsum_single l (q0 : Z) (a : K) (x : Z -> K) : NoDup l ->
+  lsum l (fun q => (if Z.eqb q q0 then a else 0) * x q) = if in_dec Z.eq_dec q0 l then a * x q0 else 0.
+Proof.
+  induction l as [|q t IH]; intros Hnd; cbn [lsum].
+  - destruct (in_dec Z.eq_dec q0 []) as [[]|]; reflexivity.
+  - inversion Hnd as [|? ? Hni Hnd']; subst. rewrite (IH Hnd').
+    destruct (Z.eqb_spec q q0) as [->|Hne].
+    + destruct (in_dec Z.eq_dec q0 t) as [Hin|_]; [contradiction|].
+      destruct (in_dec Z.eq_dec q0 (q0 :: t)) as [_|Hn]; [ring | exfalso; apply Hn; left; reflexivity].
+    + destruct (in_dec Z.eq_dec q0 t) as [Hin|Hn];
+        destruct (in_dec Z.eq_dec q0 (q :: t)) as [Hin2|Hn2]; try ring.
+      * exfalso; apply Hn2; right; exact Hin.
+      * destruct Hin2 as [E|Hin2]; [congruence | contradiction].
+Qed.
+
+(* what one stamped component adds to row r of  A x : the current g (x(i1) - x(i3)) leaving node i1 through the
+   companion conductance, entering node i3; nothing in any other row - for the conductance-stamp entry list *)
+Definition std_stamp : list (cnode * cnode * csign) := [(N1, N3, Minus); (N3, N1, Minus); (N1, N1, Plus); (N3, N3, Plus)].
+Theorem stamped_row (idx : list Z) (A : Z -> Z -> K) (c : rcomp) (x : Z -> K) (r : Z) :
+  NoDup idx -> In (rc_i1 c) idx -> In (rc_i3 c) idx -> (0 <= rc_i1 c)%Z -> (0 <= rc_i3 c)%Z -> rc_i1 c <> rc_i3 c ->
+  rowdot idx (stamped A std_stamp [c]) x r =
+  rowdot idx A x r + (if Z.eqb r (rc_i1 c) then rc_g c * (x (rc_i1 c) - x (rc_i3 c))
+                      else if Z.eqb r (rc_i3 c) then rc_g c * (x (rc_i3 c) - x (rc_i1 c)) else 0).
+Proof.
+  intros Hnd H1 H3 P1 P3 Hne. unfold rowdot. cbn [stamped stamp_entry std_stamp nidx sgn].
+  set (i1 := rc_i1 c) in *. set (i3 := rc_i3 c) in *. set (g := rc_g c).
+  assert (L1 : Z.leb 0 i1 = true) by (apply Z.leb_le; exact P1).
+  assert (L3 : Z.leb 0 i3 = true) by (apply Z.leb_le; exact P3).
+  rewrite (lsum_ext idx _ (fun q =>
+     ((if Z.eqb q i3 then (if Z.eqb r i1 then - g else 0) else 0) * x q +
+      ((if Z.eqb q i1 then (if Z.eqb r i3 then - g else 0) else 0) * x q +
+       ((if Z.eqb q i1 then (if Z.eqb r i1 then g else 0) else 0) * x q +
+        (if Z.eqb q i3 then (if Z.eqb r i3 then g else 0) else 0) * x q))) + A r q * x q)).
+  2:{ intros q. destruct (Z.eqb_spec r i1), (Z.eqb_spec r i3), (Z.eqb_spec q i1), (Z.eqb_spec q i3); subst;
+      rewrite ?L1, ?L3; cbn [andb]; try congruence; try ring;
+      repeat match goal with |- context [Z.leb 0 ?z] => destruct (Z.leb 0 z) end; cbn [andb]; ring. }
+  rewrite !lsum_add, !lsum_single by exact Hnd.
+  destruct (in_dec Z.eq_dec i1 idx) as [_|N]; [|contradiction].
+  destruct (in_dec Z.eq_dec i3 idx) as [_|N]; [|contradiction].
+  destruct (Z.eqb_spec r i1), (Z.eqb_spec r i3); subst; try congruence; ring.
+Qed.
 End Sim.
 Arguments row_sum {K}.
+Arguments MkRcomp {K}. Arguments lsum {K}. Arguments stamped {K}. Arguments zstamped {K}. Arguments rowdot {K}.
 Arguments series_step {K}.
 Arguments series_run {K}.
